@@ -570,6 +570,61 @@ class CallGraph:
                 self._method_names.setdefault(fn.name, []).append(fn)
         for fn in index.functions.values():
             self._scan(fn)
+        self._propagate_callbacks()
+
+    def _func_values(self, fn, expr, param_funcs):
+        t = self.ty.expr_type(fn, expr)
+        if t and t[0] in ("func", "bound"):
+            return set(self._dispatch(t))
+        if isinstance(expr, ast.Name) and (fn.qual, expr.id) in param_funcs:
+            return set(param_funcs[(fn.qual, expr.id)])
+        return set()
+
+    def _propagate_callbacks(self):
+        """First-class function arguments: f(g) where f calls its parameter (callbacks).
+
+        Lock wrappers are excluded here (they are modelled exactly by via_wrapper)."""
+        fns = self.ix.functions
+        param_funcs = {}
+        changed = True
+        while changed:
+            changed = False
+            for fn in fns.values():
+                for s in self.calls[fn.qual]:
+                    targets = []
+                    if s.via_wrapper:
+                        targets += [(q, s.wrapped_args, s.wrapped_keywords) for q in s.wrapped]
+                    targets += [
+                        (q, s.node.args, s.node.keywords)
+                        for q in s.callees
+                        if q in fns and fns[q].short not in LOCK_WRAPPERS
+                    ]
+                    for q, args, kws in targets:
+                        callee = fns.get(q)
+                        if callee is None:
+                            continue
+                        bp = callee.bound_params
+                        pairs = [(bp[i], a) for i, a in enumerate(args) if i < len(bp) and not isinstance(a, ast.Starred)]
+                        pairs += [(k.arg, k.value) for k in kws if k.arg]
+                        for pname, a in pairs:
+                            vals = self._func_values(fn, a, param_funcs)
+                            if vals:
+                                cur = param_funcs.setdefault((q, pname), set())
+                                if not vals <= cur:
+                                    cur |= vals
+                                    changed = True
+        self.param_funcs = param_funcs
+        for fn in fns.values():
+            if fn.short in LOCK_WRAPPERS:
+                continue
+            for s in self.calls[fn.qual]:
+                f = s.node.func
+                if isinstance(f, ast.Name) and (fn.qual, f.id) in param_funcs and not s.callees:
+                    s.callees = sorted(param_funcs[(fn.qual, f.id)])
+                    s.how_prev, s.how = s.how, "callback"
+                    s.external = None
+                    for c in s.callees:
+                        self.callers.setdefault(c, []).append(s)
 
     def _scan(self, fn):
         sites = []
